@@ -370,7 +370,7 @@ class Ratfun(object):
         if factor_const:
             K = sym.cancel(Bpoly.LC() / Apoly.LC())
             if delay != 0:
-                K *= sym.exp(self.var * delay)
+                K *= sym.exp(-self.var * delay)
 
             # Divide by leading coefficient
             N = Bpoly.monic().as_expr()
@@ -396,7 +396,7 @@ class Ratfun(object):
                 else:
                     expr = sym.Mul(N, 1 / D, evaluate=False)
             if delay != 0:
-                expr *= sym.exp(self.var * delay)
+                expr *= sym.exp(-self.var * delay)
             expr *= self.undef
 
         return expr
@@ -410,7 +410,7 @@ class Ratfun(object):
 
         expr = sym.cancel(B / A, self.var)
         if delay != 0:
-            expr *= sym.exp(self.var * delay)
+            expr *= sym.exp(-self.var * delay)
 
         return expr * undef
 
@@ -488,7 +488,7 @@ class Ratfun(object):
 
         A = A / K
         B = B / K
-        return sym.Mul(B, sym.Pow(A, -1), evaluate=False) * sym.exp(self.var * delay) * undef
+        return sym.Mul(B, sym.Pow(A, -1), evaluate=False) * sym.exp(-self.var * delay) * undef
 
     def ZPK(self, combine_conjugates=False):
         """Convert to zero-pole-gain (ZPK) form.
@@ -582,7 +582,7 @@ class Ratfun(object):
 
         K = sym.cancel(Bpoly.LC() / Apoly.LC())
         if self.delay != 0:
-            K *= sym.exp(self.var * self.delay)
+            K *= sym.exp(-self.var * self.delay)
 
         zeros = sym.roots(Bpoly)
         poles = sym.roots(Apoly)
